@@ -409,3 +409,13 @@ def dict_put(d, k, v):
     r = dict(d)
     r[k] = v
     return r
+
+
+def wf_arglist(l):
+    import ast as _a
+    return all(isinstance(x, _a.arg) and isinstance(x.arg, str) for x in l)
+
+
+def wf_kwlist(l):
+    import ast as _a
+    return all(isinstance(x, _a.keyword) and (x.arg is None or isinstance(x.arg, str)) and wf(x.value) for x in l)
